@@ -108,6 +108,8 @@ type Exec struct {
 	idleDead    bool
 	// IdleWaits counts the times the scheduler had nothing to choose and let virtual time run.
 	IdleWaits int
+	// Stalls counts "@time" steps taken while operations were pending (each stalls them by up to TimeQuantum)
+	Stalls int
 }
 
 // Policy selects the canonical order and the deviation cost.
@@ -371,8 +373,11 @@ func (x *Exec) choices(sc *Scenario) ([]Choice, []int) {
 		timeChoice = &Choice{Key: "@time", action: &Action{Name: "time", Do: func(x *Exec) {
 			// while operations are pending this is a stall of those operations: bounded by the quantum
 			d := x.idle
-			if x.quantum > 0 && nonYieldNow(x) {
-				d = x.quantum
+			if nonYieldNow(x) {
+				x.Stalls++
+				if x.quantum > 0 {
+					d = x.quantum
+				}
 			}
 			if !x.letTimePassFor(d) && d == x.idle {
 				x.timeDead = true
